@@ -1,0 +1,62 @@
+//go:build verif
+
+package boltz
+
+import "time"
+
+// Round-trip lemmas for stored values (C13). Each composes a setter with a getter; the verifier checks the
+// postcondition against the contracts of the two calls only (never their bodies), so a lemma holds exactly as long
+// as the setter's and getter's own postconditions (proved on the real bodies) fit together. Compiled only with
+// the verif tag; never called.
+
+func verifRoundTripString(b *TypedBucket, name string, v string) *string {
+	b.SetString(name, v, nil)
+	return b.GetString(name)
+}
+
+func verifRoundTripStringP(b *TypedBucket, name string, v *string) *string {
+	b.SetStringP(name, v, nil)
+	return b.GetString(name)
+}
+
+func verifRoundTripNil(b *TypedBucket, name string) (*string, *bool, *int64, *int32, *float64, *time.Time) {
+	b.SetNil(name)
+	return b.GetString(name), b.GetBool(name), b.GetInt64(name), b.GetInt32(name), b.GetFloat64(name), b.GetTime(name)
+}
+
+func verifRoundTripBool(b *TypedBucket, name string, v bool) *bool {
+	b.SetBool(name, v, nil)
+	return b.GetBool(name)
+}
+
+func verifRoundTripInt64(b *TypedBucket, name string, v int64) *int64 {
+	b.SetInt64(name, v, nil)
+	return b.GetInt64(name)
+}
+
+func verifRoundTripInt32(b *TypedBucket, name string, v int32) (*int32, *int64) {
+	b.SetInt32(name, v, nil)
+	return b.GetInt32(name), b.GetInt64(name)
+}
+
+func verifRoundTripFloat64(b *TypedBucket, name string, v float64) *float64 {
+	b.SetFloat64(name, v, nil)
+	return b.GetFloat64(name)
+}
+
+func verifRoundTripTime(b *TypedBucket, name string, v time.Time) *time.Time {
+	b.SetTime(name, v, nil)
+	return b.GetTime(name)
+}
+
+func verifRoundTripTimeP(b *TypedBucket, name string, v *time.Time) *time.Time {
+	b.SetTimeP(name, v, nil)
+	return b.GetTime(name)
+}
+
+// a write through a field checker that does not select the field changes nothing that a getter can see
+func verifFieldCheckerSkips(b *TypedBucket, name string, other string, v string, fc FieldChecker) (*string, *string) {
+	before := b.GetString(other)
+	b.SetString(name, v, fc)
+	return before, b.GetString(other)
+}
